@@ -406,6 +406,8 @@ func (sc *scen) publish(c *cl, r *rand.Rand, replace string) {
 					o.maybe = map[string][]string{}
 				}
 				o.maybe[id] = k
+			} else if k, ok := o.maybe[replace]; ok {
+				o.maybe[id] = k
 			}
 		}
 		if old := sc.streams[replace]; old != nil && old.live {
@@ -459,6 +461,55 @@ func (sc *scen) publish(c *cl, r *rand.Rand, replace string) {
 	if len(tracks) == 3 {
 		sc.run.Count("two_video_track_streams", 1)
 	}
+}
+
+// publishBrief publishes a stream that replaces `replace` and is itself about to be replaced:
+// it is connected, optionally receives one packet per track, and is recorded as ended at
+// once.  It returns the id of the short-lived stream.
+func (sc *scen) publishBrief(c *cl, r *rand.Rand, replace string, packets bool) string {
+	sc.nstream++
+	id := fmt.Sprintf("%s-st%d", c.id, sc.nstream)
+	label := labels[r.IntN(len(labels))]
+	if old := sc.streams[replace]; old != nil {
+		label = old.label
+	}
+	tracks := []vrtc.TrackSpec{{Kind: "audio", ID: "a0"}, {Kind: "video", ID: "v0"}}
+	sc.note(fmt.Sprintf("%s publishes short-lived %s label=%q replace=%q (packets=%v), to be replaced at once", c.name, id, label, replace, packets))
+	up, err := c.p.Publish(id, label, tracks, replace)
+	if err != nil {
+		sc.run.Inconclusive("publish: " + err.Error())
+		sc.bad = true
+		return ""
+	}
+	st := &stream{id: id, label: label, pub: c, up: up, stop: make(chan struct{}), tracks: tracks}
+	st.why = "replaced at once by the next stream"
+	for _, o := range sc.clients {
+		if k, ok := o.override[replace]; ok {
+			if o.maybe == nil {
+				o.maybe = map[string][]string{}
+			}
+			o.maybe[id] = k
+		} else if k, ok := o.maybe[replace]; ok {
+			o.maybe[id] = k
+		}
+	}
+	if old := sc.streams[replace]; old != nil && old.live {
+		old.live = false
+		old.why = "replaced by " + id
+		close(old.stop)
+	}
+	sc.streams[id] = st
+	if res := up.Wait(20 * time.Second); res != "connected" {
+		sc.run.Inconclusive(fmt.Sprintf("publisher %s short-lived stream %s: %s", c.name, id, res))
+		sc.bad = true
+		return ""
+	}
+	if packets {
+		for _, ts := range tracks {
+			sendOne(up.Track(ts.ID), 0, 0)
+		}
+	}
+	return id
 }
 
 func sendOne(t *vrtc.UpTrack, seq uint16, n uint32) {
@@ -582,7 +633,17 @@ func (sc *scen) act(r *rand.Rand) {
 		u.up.Close()
 		sc.run.Count("streams_closed", 1)
 	case x < 70 && len(myStreams) > 0 && c.present:
-		sc.publish(c, r, myStreams[r.IntN(len(myStreams))])
+		old := myStreams[r.IntN(len(myStreams))]
+		if r.IntN(3) == 0 {
+			// X is replaced by Y and Y by Z before the server has announced Y (its 200 ms push
+			// delay): the teardown of X must still reach every subscriber
+			if mid := sc.publishBrief(c, r, old, r.IntN(2) == 0); mid != "" && !sc.bad {
+				sc.publish(c, r, mid)
+				sc.run.Count("streams_replaced_twice_within_push_delay", 1)
+			}
+			return
+		}
+		sc.publish(c, r, old)
 		sc.run.Count("streams_replaced", 1)
 	case x < 79 && len(heldStreams) > 0:
 		id := heldStreams[r.IntN(len(heldStreams))]
@@ -758,6 +819,94 @@ func runScenario(run *vk.Run, srv *vsrv.Server, batch uint64, idx int, steps int
 	}
 }
 
+// runChain is a directed scenario: a publisher with two subscribers replaces its stream
+// twice in a row, the second time before the server has announced the first replacement
+// (galene's 200 ms push delay) - with and without media having arrived on the short-lived
+// stream, and in chains.  Judged by the same model and check as the random scenarios.
+func runChain(run *vk.Run, srv *vsrv.Server, batch uint64, idx int) {
+	r := run.Rand(3, batch, uint64(idx))
+	sc := &scen{run: run, srv: srv, batch: batch, idx: 1000 + idx, streams: map[string]*stream{}}
+	g := fmt.Sprintf("gc%d-%d", batch, idx)
+	sc.groups = []string{g}
+	srv.WriteGroup(g, map[string]any{"users": map[string]any{
+		"pres1": map[string]any{"password": "pw-pres1", "permissions": "present"},
+		"pres2": map[string]any{"password": "pw-pres2", "permissions": "present"},
+		"obs1":  map[string]any{"password": "pw-obs1", "permissions": "observe"},
+	}})
+	users := []string{"pres1", "pres2", "obs1"}
+	for i, user := range users {
+		c := sc.newClient(r, i)
+		sc.clients = append(sc.clients, c)
+		if !sc.connect(c, 0) {
+			return
+		}
+		sc.note(fmt.Sprintf("%s joins %s as %s", c.name, g, user))
+		if m, ok := c.c.Join(g, user, "pw-"+user); !ok || m.Str("kind") != "join" {
+			run.Inconclusive(fmt.Sprintf("join of %s failed: %v", c.name, m))
+			sc.bad = true
+			break
+		}
+		c.joined, c.group, c.user, c.present = true, g, user, user != "obs1"
+		if i > 0 {
+			kinds := [][]string{{"audio", "video"}, {"audio"}, {"video"}}[r.IntN(3)]
+			if i == 1 {
+				kinds = []string{"audio", "video"}
+			}
+			c.request = map[string][]string{"": kinds}
+			sc.note(fmt.Sprintf("%s request %v", c.name, c.request))
+			c.c.Send(vclient.Msg{"type": "request", "request": map[string]any{"": kinds}})
+		}
+	}
+	pub := sc.clients[0]
+	if !sc.bad {
+		sc.publish(pub, r, "")
+		sc.check()
+	}
+	for round := 0; round < 3 && !sc.bad; round++ {
+		var cur string
+		for id, u := range sc.streams {
+			if u.pub == pub && u.live {
+				cur = id
+			}
+		}
+		if cur == "" {
+			break
+		}
+		hops := 1 + r.IntN(2)
+		mid := cur
+		for h := 0; h < hops && mid != "" && !sc.bad; h++ {
+			mid = sc.publishBrief(pub, r, mid, r.IntN(2) == 0)
+			if d := r.IntN(4); d > 0 {
+				time.Sleep(time.Duration(d*40) * time.Millisecond)
+			}
+		}
+		if mid == "" || sc.bad {
+			break
+		}
+		sc.publish(pub, r, mid)
+		run.Count("streams_replaced_twice_within_push_delay", 1)
+		run.Eval(1)
+		sc.check()
+	}
+	for _, u := range sc.streams {
+		if u.live {
+			u.live = false
+			close(u.stop)
+		}
+	}
+	for _, c := range sc.clients {
+		if c.p != nil {
+			c.p.Shutdown()
+		}
+		if c.c != nil {
+			c.c.Close()
+		}
+	}
+	if !sc.bad {
+		run.Count("chain_scenarios", 1)
+	}
+}
+
 func child() {
 	run := vk.Start("C07")
 	var a batchArgs
@@ -773,6 +922,13 @@ func child() {
 		go func(i int) {
 			defer wg.Done()
 			runScenario(run, srv, a.Index, i, a.Steps)
+		}(i)
+	}
+	for i := 0; i < 3; i++ {
+		wg.Add(1)
+		go func(i int) {
+			defer wg.Done()
+			runChain(run, srv, a.Index, i)
 		}(i)
 	}
 	wg.Wait()
@@ -824,6 +980,7 @@ func main() {
 	run.FloorCounter("held_streams_verified", 30)
 	run.FloorCounter("absent_streams_verified", 30)
 	run.FloorCounter("streams_published", 8)
+	run.FloorCounter("streams_replaced_twice_within_push_delay", 6)
 	run.Assume("quiescence: three ping/pong barrier rounds 130 ms apart without any message (covers galene's 200 ms push delay); watchdog 40 s => inconclusive")
 	run.Assume("the publisher sends the first packets of its tracks one track after the other, so the order in which the server learns the tracks ('first'/'last' video track) is known")
 	run.Assume("per-stream requests and aborts are modelled as lasting while the down stream exists / until the subscriber's next request, which is when galene pushes streams again")
